@@ -327,13 +327,18 @@ class C19(Check):
                               "n": rng.randint(1, 2)}},
                 ]
             epochs.append({"lanes": lanes, "faults": faults})
-        if rng.random() < 0.12:
+        import re
+        stored = init.get("files", {}).get(VERSION_PATH)
+        proper = [v for v in sg.OLD_VERSIONS if v != stored and v != version
+                  and re.fullmatch(r"v\d+\.\d+\.\d+", v)]
+        if rng.random() < 0.12 and proper and stored != version:
             # the first epoch is run by an older release of evo (its version
             # string, without some of today's parameters); later epochs and
-            # the final start are today's release
-            stored = init.get("files", {}).get(VERSION_PATH)
-            release = {"version": rng.choice(
-                [v for v in sg.OLD_VERSIONS if v != stored]),
+            # the final start are today's release.  Only in the direction
+            # releases follow each other: the home was never touched by
+            # today's release (no current marker), the release's version is a
+            # proper version string
+            release = {"version": rng.choice(proper),
                        "without": rng.sample(
                            [k for k in keys if k not in (
                                "pygments_style", "console_logging_format",
